@@ -465,7 +465,7 @@ func runC19(e *Env) {
 		"XML strings restricted to characters XML can carry",
 		"text/html is never generated in front of a supported type in Accept lists: the statement does not say whether HTML counts as supported",
 	}
-	e.RunCases("histories", e.N(20000, 600000), 0, func(t *T) {
+	e.RunCases("histories", e.N(20000, 4000000), 0, func(t *T) {
 		r := t.R
 		n := 3 + r.IntN(6)
 		var descs []string
@@ -483,7 +483,12 @@ func runC19(e *Env) {
 				retErr = call.Do(c)
 				ctxErrs = len(c.Errors)
 			})
-			rec, pv, panicked := Serve(router, NewReq("GET", "/x"))
+			rec := NewRec()
+			var w http.ResponseWriter = rec
+			if chance(r, 1, 3) {
+				w = RecRF{rec} // like net/http's response: the underlying writer has ReadFrom
+			}
+			pv, panicked := catch(func() { router.ServeHTTP(w, NewReq("GET", "/x")) })
 			t.Count("calls.total", 1)
 			t.NonTrivial(call.Desc)
 			t.Tracef("%s -> writer [%s] Content-Type %q body %q returned err=%v ctx errors=%d", call.Desc, rec.CallLog(), rec.H.Get("Content-Type"), truncate(rec.Body.String(), 80), retErr, ctxErrs)
